@@ -260,7 +260,7 @@ func coqArgs() []string {
 
 // modelPass1 runs the model on chunks (a single Coq list literal of tens of thousands of trees overflows coqc's parser).
 func modelPass1(trees []string, pairs [][2]string, outDir string) ([]string, []bool, []int, error) {
-	const chunk = 2500
+	const chunk = 400
 	type res struct {
 		r   []string
 		c   []bool
@@ -275,7 +275,7 @@ func modelPass1(trees []string, pairs [][2]string, outDir string) ([]string, []b
 		nChunks = 1
 	}
 	out := make([]res, nChunks)
-	sem := make(chan struct{}, 8)
+	sem := make(chan struct{}, 12)
 	done := make(chan int, nChunks)
 	cut := func(n, k int) (int, int) {
 		lo, hi := k*chunk, (k+1)*chunk
@@ -317,13 +317,16 @@ func modelPass1(trees []string, pairs [][2]string, outDir string) ([]string, []b
 	return rs, cs, fs, nil
 }
 
+// the earlier, narrower theorem's hypotheses are evaluated in the thorough tier only (before/after comparison)
+var plainPred = "false"
+
 func modelPass1Chunk(trees []string, pairs [][2]string, outDir string, k int) ([]string, []bool, []int, error) {
 	var b strings.Builder
 	b.WriteString("From GC Require Import Base Model_Regex Model_RegexSimplify Proofs_RegexSimplify Proofs_RegexWalk Proofs_RegexWalkS Model_RegexText.\n")
 	b.WriteString("Definition trees : list sx := [\n")
 	b.WriteString(strings.Join(trees, ";\n"))
 	b.WriteString("\n].\nDefinition R := Eval vm_compute in map (fun t => str_bytes (simplify1 t)) trees.\nPrint R.\n")
-	b.WriteString("Definition FRAG := Eval vm_compute in map (fun t => ((if in_fragment t && avoids_defects t then 1 else 0) + (if pass_ok t then 2 else 0))%N) trees.\nPrint FRAG.\nDefinition TT := Eval vm_compute in fold_left N.add (map text_tie_count trees) 0%N.\nPrint TT.\n")
+	b.WriteString("Definition FRAG := Eval vm_compute in map (fun t => ((if " + plainPred + " then 1 else 0) + (if pass_ok t then 2 else 0))%N) trees.\nPrint FRAG.\nDefinition TT := Eval vm_compute in fold_left N.add (map text_tie_count trees) 0%N.\nPrint TT.\n")
 	b.WriteString("Definition pairs : list (sx * sx) := [\n")
 	for i, pr := range pairs {
 		if i > 0 {
@@ -432,10 +435,10 @@ func modelPass1Chunk(trees []string, pairs [][2]string, outDir string, k int) ([
 
 // modelFinal: final_ok (hypothesis of C11_simplify_final_sound_partial) for (tree of the pattern, optional tree
 // of the first pass's text), evaluated by the kernel in parallel chunks.
-func modelFinal(ins [][2]string, outDir string) ([]bool, error) {
-	const chunk = 600
+func modelFinal(ins [][2]string, outDir string) ([]int, error) {
+	const chunk = 250
 	nChunks := (len(ins) + chunk - 1) / chunk
-	res := make([][]bool, nChunks)
+	res := make([][]int, nChunks)
 	errs := make([]error, nChunks)
 	sem := make(chan struct{}, 8)
 	done := make(chan int, nChunks)
@@ -448,7 +451,7 @@ func modelFinal(ins [][2]string, outDir string) ([]bool, error) {
 				hi = len(ins)
 			}
 			var b strings.Builder
-			b.WriteString("From GC Require Import Base Model_Regex Model_RegexSimplify Proofs_RegexSimplify Proofs_RegexWalk Proofs_RegexWalkS.\n")
+			b.WriteString("From GC Require Import Base Model_Regex Model_RegexSimplify Proofs_RegexSimplify Proofs_RegexWalk Proofs_RegexWalkS Model_RegexText Proofs_RegexText.\n")
 			b.WriteString("Definition ins : list (sx * option sx) := [\n")
 			for i, in := range ins[lo:hi] {
 				if i > 0 {
@@ -456,7 +459,7 @@ func modelFinal(ins [][2]string, outDir string) ([]bool, error) {
 				}
 				b.WriteString("(" + in[0] + ", " + in[1] + ")")
 			}
-			b.WriteString("\n].\nDefinition FIN := Eval vm_compute in map (fun p => if final_ok (fst p) (snd p) then 1%N else 0%N) ins.\nPrint FIN.\n")
+			b.WriteString("\n].\nDefinition FIN := Eval vm_compute in map (fun p => ((if final_ok (fst p) (snd p) then 1 else 0) + (if text_guards_ok (final_tree (fst p) (snd p)) then 2 else 0))%N) ins.\nPrint FIN.\n")
 			path := filepath.Join(outDir, fmt.Sprintf("round2_c11_%d.v", k))
 			common.WriteFile(path, b.String())
 			args := append([]string{"600", "coqc"}, coqArgs()...)
@@ -471,8 +474,8 @@ func modelFinal(ins [][2]string, outDir string) ([]bool, error) {
 				return
 			}
 			for _, ch := range out[fi+5:] {
-				if ch == '0' || ch == '1' {
-					res[k] = append(res[k], ch == '1')
+				if ch >= '0' && ch <= '3' {
+					res[k] = append(res[k], int(ch-'0'))
 				}
 				if ch == ':' {
 					break
@@ -486,7 +489,7 @@ func modelFinal(ins [][2]string, outDir string) ([]bool, error) {
 	for k := 0; k < nChunks; k++ {
 		<-done
 	}
-	var all []bool
+	var all []int
 	for k := 0; k < nChunks; k++ {
 		if errs[k] != nil {
 			return nil, errs[k]
@@ -1095,6 +1098,17 @@ func Run(tier string, seed int64, outDir string) *common.Meta {
 	meta := &common.Meta{Property: "C11", Distribution: map[string]interface{}{}, CaseFiles: []string{}}
 	thorough := tier == "thorough"
 	textTieNodes = 0
+	plainPred = "false"
+	if thorough || os.Getenv("VERIF_C11_BEFORE") != "" {
+		plainPred = "in_fragment t && avoids_defects t"
+	}
+	phaseT := time.Now()
+	phases := map[string]float64{}
+	meta.Distribution["harness_phase_seconds"] = phases
+	mark := func(name string) {
+		phases[name] = float64(int(time.Since(phaseT).Seconds()*10)) / 10
+		phaseT = time.Now()
+	}
 	r, err := newRunner()
 	if err != nil {
 		meta.TieBroken = append(meta.TieBroken, "cannot build a checker context: "+err.Error())
@@ -1119,6 +1133,7 @@ func Run(tier string, seed int64, outDir string) *common.Meta {
 		meta.TieBroken = append(meta.TieBroken, "running the checker: "+err.Error())
 		return meta
 	}
+	mark("generate+checker_batch")
 	// 2b. every other entry point of package regexp, on a sample of the patterns
 	type siteObs struct {
 		idx, kind int
@@ -1167,6 +1182,7 @@ func Run(tier string, seed int64, outDir string) *common.Meta {
 	}
 	meta.Distribution["call_kinds_with_diagnostics"] = reactingNames
 	meta.Distribution["call_site_runs"] = len(sites)
+	mark("other_call_sites")
 	// 2c. the rewrite is a function of the pattern: what one checker instance reports for a pattern inside a
 	// file full of other patterns must be what a fresh instance reports for that pattern alone
 	alone := make([]string, len(pats))
@@ -1198,6 +1214,7 @@ func Run(tier string, seed int64, outDir string) *common.Meta {
 	}
 	meta.Distribution["patterns_whose_result_depends_on_the_batch"] = dependent
 
+	mark("each_pattern_alone")
 	// 3. trees, model pass 1 (Coq), trees of pass-1 texts
 	trees := make([]string, len(pats))
 	parsed := make([]bool, len(pats))
@@ -1262,11 +1279,14 @@ func Run(tier string, seed int64, outDir string) *common.Meta {
 	meta.Distribution["patterns_covered_by_fragment_theorem"] = nFrag
 	meta.Distribution["class_nodes_and_literal_runs_reparsed_by_text_model"] = textTieNodes
 	meta.Distribution["rewrites_covered_by_fragment_theorem_pass1"] = nFragRw
-	meta.Distribution["patterns_covered_by_the_earlier_capture_free_flag_free_theorem"] = nPlain
-	meta.Distribution["rewrites_covered_by_the_earlier_capture_free_flag_free_theorem_pass1"] = nPlainRw
+	if plainPred != "false" {
+		meta.Distribution["patterns_covered_by_the_earlier_capture_free_flag_free_theorem"] = nPlain
+		meta.Distribution["rewrites_covered_by_the_earlier_capture_free_flag_free_theorem_pass1"] = nPlainRw
+	}
 	// the FINAL rewrite (two-pass driver): hypothesis of C11_simplify_final_sound_partial
 	t2of := make([]string, len(pats))
 	finalCov := make([]bool, len(pats))
+	textOK := make([]bool, len(pats))
 	{
 		var ins [][2]string
 		var insIdx []int
@@ -1283,16 +1303,29 @@ func Run(tier string, seed int64, outDir string) *common.Meta {
 			meta.TieBroken = append(meta.TieBroken, err.Error())
 			return meta
 		}
-		nFin := 0
+		nFin, nText, nBoth := 0, 0, 0
 		for k, i := range insIdx {
-			finalCov[i] = fin[k]
-			if fin[k] && rewrites[i] != "" {
+			finalCov[i] = fin[k]&1 != 0
+			textOK[i] = fin[k]&2 != 0
+			if rewrites[i] == "" {
+				continue
+			}
+			if finalCov[i] {
 				nFin++
+			}
+			if textOK[i] {
+				nText++
+			}
+			if finalCov[i] && textOK[i] {
+				nBoth++
 			}
 		}
 		meta.Distribution["rewrites_whose_final_text_tree_is_covered_by_final_theorem"] = nFin
+		meta.Distribution["rewrites_whose_final_tree_satisfies_the_text_roundtrip_guards"] = nText
+		meta.Distribution["rewrites_inside_both_theorem_domains"] = nBoth
 	}
 
+	mark("coq_round1+round2")
 	// 4. simplifier cases
 	hdr := `From GC Require Import Base Model_Regex Model_RegexSimplify Proofs_RegexSimplify Proofs_RegexWalk Proofs_RegexWalkS Model_RegexText.
 Record case := { k_pat : string; k_tree : option sx; k_c1 : string; k_tree2 : option sx; k_obs : option string;
@@ -1321,7 +1354,7 @@ Definition case_ok (k : case) : bool :=
   end.
 Definition cases : list case := [
 `
-	shards := 6
+	shards := 8
 	if thorough {
 		shards = 20
 	}
@@ -1404,6 +1437,7 @@ Definition cases : list case := [
 	meta.Distribution["rewrites_proposed"] = nRewrites
 	meta.Distribution["rewrites_needing_second_pass"] = nTwoPass
 
+	mark("write_simplifier_cases")
 	// 5. semantics cases: model matcher vs regexp.FindStringSubmatchIndex
 	rng := common.NewRand(seed, "c11-subjects")
 	semHdr := `From GC Require Import Base Model_Regex.
@@ -1517,6 +1551,7 @@ Definition cases : list case := [
 	meta.Distribution["semantics_patterns_outside_model"] = semUnsupported
 	meta.Distribution["semantics_patterns_with_nullable_loop_body"] = semLoops
 
+	mark("semantics_cases")
 	// 6. oracle: every proposed rewrite, both sides compiled by Go's regexp
 	orng := common.NewRand(seed, "c11-oracle")
 	maxLen, budget := 4, 5000
@@ -1529,6 +1564,7 @@ Definition cases : list case := [
 	classCount := map[string]int{}
 	coveredRefuted := map[string]int{}
 	finalCoveredRefuted := map[string]int{}
+	bothRefuted := map[string]int{}
 	shrunkPerClass := map[string]int{}
 	for i, p := range pats {
 		if rewrites[i] == "" {
@@ -1561,6 +1597,13 @@ Definition cases : list case := [
 			// every pass is proved sound at tree level and each pass started from a tree meaning what the previous
 			// one emitted: the damage can only be that Go reads the final TEXT differently from the final tree
 			finalCoveredRefuted[class]++
+			if textOK[i] {
+				// ... and the final tree passes the guards of the text-level round-trip theorems: the text model
+				// (classes, literal runs) claims nothing changes meaning by its new neighbours. A refutation here is a
+				// re-lexing route the model does not know.
+				bothRefuted[class]++
+				meta.TieBroken = append(meta.TieBroken, fmt.Sprintf("%q => %q lies inside the tree-level theorem and the text-level guards, yet Go's regexp distinguishes them: %s", p, rewrites[i], describe(d)))
+			}
 		}
 		if shrunkPerClass[class] < 5 {
 			shrunkPerClass[class]++
@@ -1571,6 +1614,7 @@ Definition cases : list case := [
 			})
 		}
 	}
+	mark("oracle")
 	// diagnostics at POSIX call sites are judged with that site's constructor
 	posixFailures := 0
 	for _, so := range sites {
@@ -1596,6 +1640,7 @@ Definition cases : list case := [
 	meta.Distribution["oracle_defect_classes"] = classCount
 	meta.Distribution["oracle_refuted_although_pass1_tree_proved_sound"] = coveredRefuted
 	meta.Distribution["oracle_refuted_although_final_tree_proved_sound"] = finalCoveredRefuted
+	meta.Distribution["oracle_refuted_inside_both_theorem_domains"] = bothRefuted
 	meta.Evaluations = len(pats) + semRuns + subjectsTried
 	meta.Distinct = nRewrites
 	meta.Rule = "patterns: the repo's regexpSimplify testdata strings and the defect corpus first, then grammar-based (small alphabet), metacharacter-heavy, class-heavy and mutation streams, all valid UTF-8 and accepted by regexp.Compile, <= 60 bytes plus a few longer ones; each is parsed by syntax.Parser{NoLiterals:true} (tree dumped as a Coq term), run through linter.NewChecker(regexpSimplify) on a type-checked generated file, and compared in Coq with the model's two-pass result (the parser supplies the tree of the model's pass-1 text); matcher model vs regexp.FindStringSubmatchIndex on sampled (pattern, subject) pairs; oracle: both sides of every proposed rewrite compiled by regexp and compared on NumSubexp, SubexpNames and FindStringSubmatchIndex over all subjects up to length 4 (5 thorough) over the pattern's alphabet + a foreign rune, \\n, \\v. distinct_nontrivial = number of distinct patterns for which the checker proposed a rewrite"
